@@ -246,5 +246,31 @@ void h_mode_inverse_%(e)s(void)
     return o
 
 
+HASH = dict(contracts=['hash.h'])
+
+
+def hash_obligations():
+    o = []
+    P = ['C07', 'C08', 'C02', 'C05', 'C06']
+    pb = 'P-B: every round/step is checked against the standard\'s round function for an arbitrary pre-state (loop contract / cut points); the round count and the feed-forward are postconditions'
+    o.append(Ob('sha256_compress', P, enforce='sha256hash__getHash_1', unwind=66, timeout=900, note=pb, **HASH))
+    o.append(Ob('sha1_compress', P, enforce='sha1hash__getHash_1', unwind=82, timeout=900, note=pb, **HASH))
+    o.append(Ob('md5_compress', P, enforce='md5hash__getHash_1', unwind=66, timeout=900, note=pb, **HASH))
+    for c in ('sha256hash', 'sha1hash', 'md5hash'):
+        o.append(Ob(c + '_final', P, enforce=c + '__getHash_2', replace=[c + '__getHash_1'], unwind=66, timeout=600, **HASH,
+                    note='padding rule for every residue r < 64 and the 64-bit length field, observed at an arbitrary byte of either final block'))
+        o.append(Ob(c + '_reset', P, enforce=c + '__reset', **HASH))
+        o.append(Ob(c + '_getres', P, enforce=c + '__getres', unwind=34, **HASH))
+    # behavioural subtyping: each dispatcher's abstract contract holds for every subclass (overriders replaced by their contracts)
+    for m, suffix in (('reset', ''), ('getHash_1', ''), ('getHash_2', ''), ('getres', '')):
+        o.append(Ob('hashmaster_dispatch_' + m, P, enforce='Hashmaster__' + m,
+                    replace=['%s__%s' % (c, m) for c in ('sha256hash', 'sha1hash', 'md5hash')], **HASH,
+                    note='R5 dispatcher: the abstract contract used by the drivers is satisfied by all three subclasses'))
+    o.append(Ob('hashmaster_getStringHash', P + ['C18'], enforce='Hashmaster__getStringHash', timeout=600,
+                replace=['Hashmaster__reset', 'Hashmaster__getHash_1', 'Hashmaster__getHash_2', 'Hashmaster__getres'], **HASH,
+                note='unbounded in the message length (symbolic 32-bit length, loop contract); call log: block j is string[64j..64j+64), then the final routine with the tail and the 64-bit bit count'))
+    return o
+
+
 def all_obligations():
-    return aes_obligations() + mode_obligations()
+    return aes_obligations() + mode_obligations() + hash_obligations()
